@@ -142,10 +142,18 @@ class Canon:
         if k == "mcall":
             recv = self.norm(t[1])
             args = tuple(self.norm(a) for a in t[3])
+            if t[2] == "keys" and not args and not t[4]:
+                # d.keys() iterates / tests membership / has the length of d itself
+                return recv
             if t[2] == "copy" and not args and not t[4] \
                     and (self._is_vector(recv) or self._is_tensor(recv)):
                 # ndarray.copy() is np.copy(ndarray)
                 return ("copy", recv, ("method-copy", self._show(recv, {})))
+            if t[2] == "get" and not t[4] and (
+                    len(args) == 1 or (len(args) == 2 and args[1] == C(None))):
+                # D.get(k) / D.get(k, None): the entry when present, None otherwise
+                return self.norm(("phi", ("cmp", "in", args[0], recv), ("sub", recv, args[0]),
+                                  C(None)))
             if t[2] == "get" and len(args) == 2 and not t[4] \
                     and recv[0] in ("dictobj", "comp") and (recv[0] != "comp" or recv[1] == "dict"):
                 # m.get(k, d) on a mapping the analysed code built itself is the conditional
